@@ -11,8 +11,13 @@ units = [u for u in units if "__canary" not in os.path.basename(u)]
 if len(sys.argv) > 2: units = [u for u in units if os.path.basename(u)[:-3] in sys.argv[2].split(",")]
 def run(a):
     u, s = a
-    p = subprocess.run(["verus", os.path.basename(u), "--rlimit", "50", "--smt-option", f"smt.random_seed={s}",
-                        "--multiple-errors", "3"], cwd=os.path.dirname(u), capture_output=True, text=True)
+    try:
+        p = subprocess.run(["verus", os.path.basename(u), "--rlimit", "50", "--smt-option", f"smt.random_seed={s}",
+                            "--multiple-errors", "3"], cwd=os.path.dirname(u), capture_output=True, text=True, timeout=600)
+    except subprocess.TimeoutExpired:
+        # a query the resource limit does not stop (seen with one degree-4 nonlinear identity): as bad as a flip
+        subprocess.run("pkill -f 'rust_verify " + os.path.basename(u) + "'", shell=True)
+        return os.path.basename(u), s, -2, ["HANG (600 s)"]
     tail = [l for l in (p.stdout + p.stderr).splitlines() if "verification results" in l or l.startswith("error")]
     import re
     m = re.search(r"(\d+) verified, (\d+) errors", p.stdout + p.stderr)
